@@ -7,6 +7,10 @@
   the two passes fused (`ALV.Model.C16`);  `srun` — the specification (`ALV.Spec.C16`: a log of
   events with closed-form start times and a closed-form sum).  The theorems below are about
   `prun`, the machine the driver runs against the real code.
+
+  Round 5: a fourth layer above `prun` — `ALV.Gen.C16` (lean/ALV/Gen/C16Src.lean), the same machine REGENERATED from
+  the text of audiolazy/lazy_stream.py by harness/props/c16_tr.py on every check; `src_*_is_model` (end of this file)
+  prove it equal to the hand-written one, `source_streamix_eq_spec` states the property about it.
 -/
 import ALV.Lemmas.C16Main
 import ALV.Lemmas.C16Gen
@@ -15,6 +19,7 @@ import ALV.Lemmas.C16X
 import ALV.Lemmas.C16XNext
 import ALV.Lemmas.C16Prune
 import ALV.Lemmas.C16K
+import ALV.Lemmas.C16Src
 import ALV.Common.Audit
 
 namespace ALV.Props.C16
@@ -553,6 +558,97 @@ example : outAt (⟨.complex, 0, 0⟩ : PyNum) 0 [⟨0, [⟨.frac, 1/2, 0⟩]⟩
 example : ∀ e ∈ ([⟨0, [1]⟩, ⟨3, [2]⟩] : List (SEv Int)), term 1 e = none := by decide
 -- beyond_horizon_never_starts: a delta beyond the horizon of 3 samples
 example : ((3 : Nat) : Rat) + 1/2 < 4 := by norm_num
+
+/-! ### Round 5: the model REGENERATED from the source (`ALV.Gen.C16`, written from audiolazy/lazy_stream.py by
+    harness/props/c16_tr.py on every check) is the hand-written model; every theorem above is therefore a theorem
+    about what the source says now, and an edit of `Streamix.__init__` / `data_generator` / `add` / `ControlStream`
+    that changes the meaning breaks one of `src_*`. -/
+
+/-- **C16.S1** `Streamix.__init__` (containers, `self.keep = keep`, the prologue `count = 0.5` of the closure):
+the regenerated initial state is the model's. -/
+theorem src_init_is_model (keep : Bool) : (ALV.Gen.C16.init keep : PState α) = PState.init keep := rfl
+
+/-- **C16.S2** the signature `def __init__(self, keep=False, zero=0.)`: keep is off by default, the default zero
+is the float 0.0 (DESIGN: "Default zero is 0.0"). -/
+theorem src_defaults_are_documented :
+    ALV.Gen.C16.keepDefault = false ∧ ALV.Gen.C16.zeroDefault = 0 ∧ ALV.Gen.C16.zeroDefaultIsFloat = true := by
+  decide
+
+/-- **C16.S3** `while self._not_playing and (count >= self._not_playing[0][0]): delta, newdata = popleft();
+self._playing.append(newdata); count -= delta`, regenerated, is `pstartLoop`. -/
+theorem src_startLoop_is_model : @ALV.Gen.C16.startLoop α = pstartLoop := by
+  funext c q p; exact src_startLoop c q p
+
+/-- **C16.S4** `for snd in self._playing: try: data = data + next(snd) except StopIteration: to_remove.append(snd)`,
+regenerated, is `sumLoop` (operand order of the `+`, what the handler collects). -/
+theorem src_sumLoop_is_model [Add α] : @ALV.Gen.C16.sumLoop α _ = sumLoop := by
+  funext d ps; exact src_sumLoop d ps
+
+/-- **C16.S5** the summing statement builds a new object (`data = data + …`), it does not work in place on the
+zero object (`data += …`, defect D29). -/
+theorem src_sum_builds_new_object : ALV.Gen.C16.sumInPlace = false := rfl
+
+/-- **C16.S6** `for snd in to_remove: self._playing.remove(snd)`, regenerated, is `removeAll`. -/
+theorem src_removeLoop_is_model : @ALV.Gen.C16.removeLoop α = removeAll := by
+  funext l p; exact src_removeLoop l p
+
+/-- **C16.S7** one trip round `while True` of `data_generator`, translated statement by statement in source order
+(resumption `count += 1.`, start loop, `data = zero`, summing loop, removal block, stop test
+`not (self.keep or self._playing or self._not_playing)` → break, `yield data`), is `pnext`. -/
+theorem src_next_is_model [Add α] : @ALV.Gen.C16.next α _ = pnext := by
+  funext z s; exact src_next z s
+
+/-- **C16.S8** `Streamix.add`: the delta test (comparison and constant of the source) before the append. -/
+theorem src_add_is_model : @ALV.Gen.C16.add α = padd := by
+  funext s d x; exact src_add s d x
+
+/-- **C16.S9** the summing loop when `next(snd)` or the `+` may raise, regenerated from the same statement. -/
+theorem src_xsumLoop_is_model [XAdd ε α] : @ALV.Gen.C16.xsumLoop α ε _ = xsumLoop := by
+  funext d ps; exact src_xsumLoop d ps
+
+/-- **C16.S10** one trip of the generator with exceptions passing through it. -/
+theorem src_xnext_is_model [XAdd ε α] : @ALV.Gen.C16.xnext α ε _ = xnext := by
+  funext z s; exact src_xnext z s
+
+/-- **C16.S11** `Streamix.add` whose `iter(data)` works. -/
+theorem src_xadd_is_model : @ALV.Gen.C16.xadd α ε = xadd := by
+  funext s d x; exact src_xadd s d x
+
+/-- **C16.S12** `Streamix.add` whose `iter(data)` raises: the statement order of the source (delta test first, the
+iterator is made while the argument of `append` is evaluated, so nothing is stored) gives `xaddFail`. -/
+theorem src_xaddFail_is_model : @ALV.Gen.C16.xaddFail α ε = xaddFail := by
+  funext s d e; exact src_xaddFail s d e
+
+/-- **C16.S13** `ControlStream`: `self.value = value` and `while True: yield self.value` are the model's cell. -/
+theorem src_control_is_model (value : β) :
+    ALV.Gen.C16.cinit value = value ∧ ALV.Gen.C16.cread value = cstep value .read := ⟨rfl, rfl⟩
+
+/-- **C16.S14** (the property about the regenerated code).  The machine assembled from the REGENERATED `init`, `add`
+and `next` shows, for every history, what the specification says (C16.1 transported along `src_*`). -/
+theorem source_streamix_eq_spec [Add α] (zero : α) (keep : Bool) (ops : List (Op α)) :
+    (grun zero (ALV.Gen.C16.init keep) ops).2 = (srun zero (SState.init keep) ops).2 := by
+  rw [grun_eq, src_init_is_model, streamix_model_eq_spec]
+
+/-- **C16.S15** the same with failing operations (C16.15 transported). -/
+theorem source_streamix_x_eq_spec [XAdd ε α] (zero : α) (keep : Bool) (ops : List (XOp ε α)) :
+    (gxrun zero (ALV.Gen.C16.init keep) ops).2 =
+      xview ops (srun (Except.ok zero : Except ε α) (SState.init keep) (erase ops)).2 := by
+  rw [gxrun_eq, src_init_is_model, streamix_x_eq_spec]
+
+/-- **C16.S16** ControlStream run with the regenerated constructor and read: every read yields the value most
+recently assigned. -/
+theorem source_control_last_value (init : β) (ops : List (COp β)) :
+    gcrun (ALV.Gen.C16.cinit init) ops = cspec init ops := by
+  rw [gcrun_eq]; exact control_last_value init ops
+
+-- non-vacuity: the regenerated machine on the doctest of the class (three events, one late)
+example : (grun (0 : Int) (ALV.Gen.C16.init false)
+    [.add 0 [-1, 1, 3, 2], .add 2 [4, 4, 4], .add 0 [-3, -5, -7, -5, -7, -1],
+     .next, .next, .next, .next, .next, .next, .next, .next, .next]).2.drop 3
+    = [.out (-1) 1, .out 1 0, .out 4 2, .out 1 0, .out (-3) 0, .out (-5) 0, .out (-7) 0, .out (-1) 0, .stop] := by
+  decide +kernel
+example : gcrun (ALV.Gen.C16.cinit 7) [.read, .set 9, .read, .read] = [some 7, none, some 9, some 9] := by
+  decide
 
 end ALV.Props.C16
 
